@@ -371,3 +371,96 @@ func Variant(r *rand.Rand, s *Schema, doc *Doc, vals map[string]*Val, kind strin
 	}
 	return nil, nil, false
 }
+
+// AbstractFragmentOnObjectParent reports whether the document applies a fragment whose type
+// condition is an interface or union inside a selection on a concrete object type.
+func AbstractFragmentOnObjectParent(s *Schema, doc *Doc) bool {
+	found := false
+	isAbstract := func(n string) bool { k := s.KindOf(n); return k == Interface || k == Union }
+	fragOn := map[string]string{}
+	for _, f := range doc.Frags {
+		fragOn[f.Name] = f.On
+	}
+	var walk func(sels []*Sel, parent string)
+	walk = func(sels []*Sel, parent string) {
+		for _, x := range sels {
+			switch {
+			case x.Field != nil:
+				if x.Field.Def != nil && len(x.Field.Sel) > 0 {
+					walk(x.Field.Sel, x.Field.Def.Type.NamedType())
+				}
+			case x.Inline != nil:
+				p := parent
+				if x.Inline.On != "" {
+					if isAbstract(x.Inline.On) && s.KindOf(parent) == Object {
+						found = true
+					}
+					p = x.Inline.On
+				}
+				walk(x.Inline.Sel, p)
+			case x.Spread != nil:
+				if on := fragOn[x.Spread.Name]; on != "" && isAbstract(on) && s.KindOf(parent) == Object {
+					found = true
+				}
+			}
+		}
+	}
+	for _, op := range doc.Ops {
+		root := s.Query
+		if op.Kind == "mutation" {
+			root = s.Mutation
+		}
+		walk(op.Sel, root)
+	}
+	for _, f := range doc.Frags {
+		walk(f.Sel, f.On)
+	}
+	return found
+}
+
+// UnionFragmentInNonUnionParent reports whether the document applies a fragment whose type
+// condition is a union inside a selection whose parent type is not that union (an object type that
+// is a member, or an interface sharing a member).
+func UnionFragmentInNonUnionParent(s *Schema, doc *Doc) bool {
+	found := false
+	fragOn := map[string]string{}
+	for _, f := range doc.Frags {
+		fragOn[f.Name] = f.On
+	}
+	check := func(on, parent string) {
+		if on != "" && on != parent && s.KindOf(on) == Union {
+			found = true
+		}
+	}
+	var walk func(sels []*Sel, parent string)
+	walk = func(sels []*Sel, parent string) {
+		for _, x := range sels {
+			switch {
+			case x.Field != nil:
+				if x.Field.Def != nil && len(x.Field.Sel) > 0 {
+					walk(x.Field.Sel, x.Field.Def.Type.NamedType())
+				}
+			case x.Inline != nil:
+				p := parent
+				if x.Inline.On != "" {
+					check(x.Inline.On, parent)
+					p = x.Inline.On
+				}
+				walk(x.Inline.Sel, p)
+			case x.Spread != nil:
+				check(fragOn[x.Spread.Name], parent)
+			}
+		}
+	}
+	for _, op := range doc.Ops {
+		root := s.Query
+		if op.Kind == "mutation" {
+			root = s.Mutation
+		}
+		walk(op.Sel, root)
+	}
+	for _, f := range doc.Frags {
+		walk(f.Sel, f.On)
+	}
+	return found
+}
